@@ -18,21 +18,27 @@ PROVED = [
     'hnf_row_permutation, hnf_rebasing (T unimodular), hnf_appended_dependent_rows [P]',
     'union_spec [P]: union (new A) (new B) = new (A ++ B) for non-empty normal forms; union_empty [P]',
     'determinant_pivots [P]: determinant = product of the positive diagonal pivots of a square (lower triangular) normal form, 0 if non-empty and not square, 1 if empty',
+    'rowspan_as_matrix_product [P] (bridge, coq/Refine/DetBridge.v): In_rowspanZ m v A <-> v = c *m zmx A for an integer row vector c; the list product mmul is MathComp *m, idmat is 1%:M, '
+    'stacking is col_mx, unimodular (two-sided integer inverse) implies \\det = +-1',
+    'hnf_rank [P]: #rows H = \\rank of A over Q (MathComp mxrank of the matrix mapped into Qc), and k = n - rank',
+    'determinant_index [P]: for square n x n A: det A <> 0 -> H has n rows and determinant(HNF::new A) = |\\det A| (Leibniz determinant; = index of the row lattice in Z^n); '
+    'det A = 0 -> H has fewer than n rows and determinant returns 0 (1 for the empty form)',
+    'determinant_index_lattice [P]: for any n x m generating set A whose lattice has a square basis matrix B with det B <> 0: determinant(HNF::new A) = |\\det B| (lattice index; via hnf_canonical)',
 ]
 NOT_PROVED = [
-    'rank stated over Q (#rows H = rank of A over Qc): proved only in lattice form (rows of H independent over Z and generating the lattice); no Gaussian elimination over Qc is formalised',
-    'determinant = lattice index |Z^m : rowspan| = |det| of any basis matrix: needs a determinant theory for list matrices (checked by the oracle against Bareiss / gcd of maximal minors on every case)',
     'ragged input (rows of different lengths) and n x 0 matrices: outside the property; covered by the correspondence only',
 ]
 
 CLAIM = dict(
     technique='Coq proof about the Gallina model of hnf_with_u/HNF::new/union/determinant (coq/Model/Hnf.v, proofs in coq/Refine/Hnf*.v, MatZ.v) + extracted-model-vs-implementation correspondence',
     text='For all integer matrices with n, m >= 1 (no size bound): the model terminates without panic; H is in normal form, generates exactly the row lattice of A, '
-         'has independent rows; the normal form of a lattice is unique, hence HNF::new is canonical (row permutations, unimodular re-basing, appended dependent/zero rows), '
-         'union = normal form of the stacked generators, determinant = product of the positive diagonal pivots. The model mirrors hnf.rs line by line '
+         'has independent rows and #rows H = rank of A over Q; the normal form of a lattice is unique, hence HNF::new is canonical (row permutations, unimodular re-basing, '
+         'appended dependent/zero rows), union = normal form of the stacked generators, determinant = product of the positive diagonal pivots, and for square A this is |det A| '
+         '(MathComp Leibniz determinant of the matrix view zmx; 0 resp. non-square form exactly when det A = 0). The model mirrors hnf.rs line by line '
          '(checked index accesses, the k bookkeeping, the (|a|, index) minimum, floor_div) and is tied to /repo by running extracted model and impl_svc on the same inputs '
          '(exhaustive small matrices, structured random up to 8x8 and 2^200, ragged/degenerate edge stream incl. panic classes).',
-    note='Not proved: rank in its over-Q form, determinant = index (oracle-checked on every case). U is only determined up to the kernel; the theorems do not fix it. '
+    note='determinant = index: |det| of any square basis matrix of the lattice (determinant_index_lattice), in particular of A itself when A is square. '
+         'U is only determined up to the kernel; the theorems do not fix it. '
          'HNF::new of an all-zero matrix is the empty form with deg 0 and determinant 1 (empty product); the property text is silent there.',
     ref='DESIGN.md section 4, C02')
 
